@@ -47,7 +47,9 @@ type op struct {
 
 // instance is one constructed object under test.
 type instance struct {
-	ops []op
+	// model: the object itself, for targets built on top of another target (the ModelServer of a model)
+	model any
+	ops   []op
 	// state is the full read-back through the public API, without masks
 	state func() []proto.Message
 }
@@ -59,6 +61,8 @@ type target struct {
 	build func(e *env) *instance
 	// notOps: exported methods that are not operations on messages (documented in the listing)
 	notOps []string
+	// layer "server": a ModelServer driven through its grpc.ServiceDesc, built over the model target named over
+	layer, over string
 }
 
 var targets []target
@@ -73,6 +77,7 @@ type stepT struct {
 }
 type walkT struct {
 	N     int     `json:"n"`
+	Init  string  `json:"init"` // "absent" | "present": the construction of the object
 	Steps []stepT `json:"steps"`
 }
 
@@ -169,11 +174,11 @@ func watchdog() {
 func runWalk(tg target, w walkT, out *hx.Out) {
 	t := newTracker()
 	base := hx.Seed()*1000003 + int64(w.N)*7919 + hashName(tg.name)
-	e := &env{r: rand.New(rand.NewSource(base)), t: t}
+	e := &env{r: rand.New(rand.NewSource(base)), t: t, present: w.Init != "absent"}
 	t.opName = "New"
 	var inst *instance
 	line := func(o obs) {
-		o.Target, o.Walk = tg.name, w.N
+		o.Target, o.Walk, o.Init = tg.name, w.N, w.Init
 		if o.Changed == nil {
 			o.Changed = []changedHandle{}
 		}
@@ -286,19 +291,22 @@ type listing struct {
 	Bound   []string `json:"bound"`
 	Ops     []string `json:"ops"`
 	NotOps  []string `json:"not_ops"`
+	Layer   string   `json:"layer"`
+	Over    string   `json:"over"`
 }
 
 func list() {
 	res := []listing{}
 	for _, tg := range targets {
-		l := listing{Name: tg.name, Pkg: tg.pkg, Type: tg.typ.String(), Methods: []string{}, Bound: []string{}, Ops: []string{}, NotOps: tg.notOps}
+		l := listing{Name: tg.name, Pkg: tg.pkg, Type: tg.typ.String(), Methods: []string{}, Bound: []string{}, Ops: []string{}, NotOps: tg.notOps,
+			Layer: tg.layer, Over: tg.over}
 		if l.NotOps == nil {
 			l.NotOps = []string{}
 		}
 		for i := 0; i < tg.typ.NumMethod(); i++ {
 			l.Methods = append(l.Methods, tg.typ.Method(i).Name)
 		}
-		e := &env{r: rand.New(rand.NewSource(1)), t: newTracker()}
+		e := &env{r: rand.New(rand.NewSource(1)), t: newTracker(), present: true}
 		inst := tg.build(e)
 		seen := map[string]bool{}
 		for _, o := range inst.ops {
